@@ -16,11 +16,12 @@
 EXTENDS Json, IOUtils, TLCExt, Sequences, Integers, TLC, Dec
 Log == ndJsonDeserialize(IOEnv.TRACE_FILE)
 VARIABLE l
-SameAtom(x, y) == x.z = y.z /\ x.a = y.a /\ x.q = y.q
-\* two sorted bags (lists of [z,a,q,c]) are equal up to count rounding
+SameAtom(x, y) == x.z = y.z /\ x.a = y.a /\ x.q = y.q /\ x.t = y.t          \* (t: the table the atom belongs to)
+\* two sorted bags (lists of [z,a,q,t,c]) are equal: the Hill form regroups the formula's own atom counts, it does not
+\* recompute them, so the counts are the same numbers
 RECURSIVE SameBag(_, _)
 SameBag(x, y) == IF x = <<>> \/ y = <<>> THEN x = <<>> /\ y = <<>>
-                 ELSE SameAtom(Head(x), Head(y)) /\ Close(Head(x).c, Head(y).c, -12) /\ SameBag(Tail(x), Tail(y))
+                 ELSE SameAtom(Head(x), Head(y)) /\ Eq(Head(x).c, Head(y).c) /\ SameBag(Tail(x), Tail(y))
 RECURSIVE LexLess(_, _)
 LexLess(s, t) == IF s = <<>> THEN t # <<>>                 \* strict lexicographic order on character codes
                  ELSE IF t = <<>> THEN FALSE
